@@ -4,6 +4,13 @@ set_option linter.unusedSimpArgs false
 namespace LyModel.Val
 open LyModel
 
+instance instDecidableEqExcept {ε α : Type} [DecidableEq ε] [DecidableEq α] : DecidableEq (Except ε α) := fun a b =>
+  match a, b with
+  | .ok x, .ok y => if h : x = y then isTrue (h ▸ rfl) else isFalse (fun h' => h (Except.ok.inj h'))
+  | .error x, .error y => if h : x = y then isTrue (h ▸ rfl) else isFalse (fun h' => h (Except.error.inj h'))
+  | .ok _, .error _ => isFalse (fun h => nomatch h)
+  | .error _, .ok _ => isFalse (fun h => nomatch h)
+
 /-! ### lists -/
 
 theorem all_iff {p : UInt8 → Bool} {l : Bytes} : l.all p = true ↔ ∀ x ∈ l, p x = true := List.all_eq_true
